@@ -61,6 +61,17 @@ def gen_deflate(tier, rng):
                                                  calls=[[n, ao, 0, eos]] if table == 0 else [[n // 2, ao, [0, 1, 2][k % 3], 0], [n, 1 << 17, 0, eos]],
                                                  tail_ai=n, tail_ao=1 << 17, cap=2000, meta={"family": "first-output-sweep", "cls": cls}))
                         k += 1
+    # (vi) model-guided schedules: the harness walks the DeflateStream model's (control state, environment action) keys, always taking the
+    #      least-visited (room class, hand over input, flush, end_of_stream) choice from the state the real stream is in (h_igzip.c adapt_choose)
+    reps = 3 if tier == "quick" else 12
+    for r in range(reps):
+        for cls, n in [("random", 900), ("text", 2500), ("records", 24000), ("zeros", 3000), ("random", 9000), ("lowent", 700), ("text", 70), ("periodic", 40000)]:
+            inp = igz.corpus(rng, cls, n)
+            for level in range(4):
+                scns.append(igz.scenario(len(scns), "deflate", inp, level=level, wrap=[1, 0, 3, 2, 4][k % 5], lbuf=[3, 0][k % 2], mem=[0, 1, 2][k % 3], prefill=k % 3,
+                                         table=[0, 0, 1, 2][k % 4] if level == 0 else 0, calls=[], tail_ai=n, tail_ao=1 << 16, cap=1200,
+                                         meta={"family": "model-guided", "cls": cls, "adaptive": 1 + rng.randrange(1 << 20)}))
+                k += 1
     return scns
 
 def streams(rng, tier):
@@ -139,9 +150,15 @@ def run(tier, replay=None):
         for s in scns:
             if len(by[s["scn"]]["calls"]) >= 2: fams[(name, s["meta"]["family"], s["level"], s["wrap"], s["mem"])] = 1
     nd, ni = len(dsc), len(isc)
+    mc = igz.model_coverage(out["deflate"][1]) if "deflate" in out else {}
+    if mc:
+        import verif as _v
+        with open(os.path.join(_v.BUILD, "c07-model-transitions-unobserved.txt"), "w") as f:
+            for t in sorted(mc["_reach"] - mc["_obs"]): f.write(" ".join(map(str, t)) + "\n")
     cov = {"states": nd + ni, "transitions": calls, "traces_validated_against_impl": nd + ni, "evaluations": nd + ni, "distinct_nontrivial": len(fams),
            "deflate_scenarios": nd, "inflate_scenarios": ni,
-           "state_machine_conformance": {"model": "spec/DeflateStreamOps.tla (tabulated by spec/gen/GenDeflateStream.tla)", "calls_not_in_model": igz.drift_count(out["deflate"][1] if "deflate" in out else {})},
+           "state_machine_conformance": {"model": "spec/DeflateStreamOps.tla (tabulated by spec/gen/GenDeflateStream.tla)", "calls_not_in_model": igz.drift_count(out["deflate"][1] if "deflate" in out else {}),
+                                         "model_transition_coverage": dict({k: x for k, x in mc.items() if not k.startswith("_")}, **(igz.key_coverage(mc) if mc else {}))},
            "rule": "call histories: every single split point of input (all for n<=40/48, boundary+random points beyond), (in-chunk,out-chunk) pairs from {1,2,7,8,9,16,17,33,256,257,...}, random schedules with flush-mode changes and end_of_stream announced on a later empty call, "
                    "refill-before-drain with 1..20-byte output, three chunk-memory disciplines (contiguous / fresh mapping unmapped when consumed / recycled and scribbled); compression traces are judged by TraceDeflate.tla "
                    "(accounting, progress, END reached, final stream decodes to the concatenated input); decompression traces (zlib/gzip-made streams in all 7 modes, one-shot and streaming) by TraceInflate.tla against the spec's decode of the same stream "
